@@ -16,11 +16,11 @@ inline void sym_outcomes(int n) { for (int i = 0; i < n; ++i) { g_out[i] = nonde
 // leaf that completes inside start() with the symbolic outcome of slot idx; value type int (or void if Void)
 template <bool Void, template <typename...> class V, template <typename...> class T> struct leaf_values { using type = V<T<int>>; };
 template <template <typename...> class V, template <typename...> class T> struct leaf_values<true, V, T> { using type = V<T<>>; };
-template <bool Void = false>
+template <bool Void = false, bool EPtr = false>
 struct sleaf {
   int idx;
   template <template <typename...> class V, template <typename...> class T> using value_types = typename leaf_values<Void, V, T>::type;
-  template <template <typename...> class V> using error_types = V<int>;
+  template <template <typename...> class V> using error_types = std::conditional_t<EPtr, V<std::exception_ptr>, V<int>>;
   static constexpr bool sends_done = true;
   static constexpr unifex::blocking_kind blocking = unifex::blocking_kind::always_inline;
   template <typename R> struct op {
@@ -31,7 +31,7 @@ struct sleaf {
       if (unifex::get_stop_token(r_).stop_requested()) g_leaf_stop_at_start[idx_] = 1;
       int o = g_out[idx_]; g_done_seq[idx_] = ++g_seq; g_leaf_completed[idx_] = 1;
       if (o == 0) { if constexpr (Void) unifex::set_value((R&&)r_); else unifex::set_value((R&&)r_, int(g_val[idx_])); }
-      else if (o == 1) unifex::set_error((R&&)r_, int(g_val[idx_]));
+      else if (o == 1) { if constexpr (EPtr) unifex::set_error((R&&)r_, std::make_exception_ptr(int(g_val[idx_]))); else unifex::set_error((R&&)r_, int(g_val[idx_])); }
       else unifex::set_done((R&&)r_);
     }
   };
